@@ -3,8 +3,8 @@
 import json, os, subprocess, sys
 VERIF = os.path.dirname(os.path.abspath(__file__))
 sys.path.insert(0, VERIF)
-from checks_config import CHECKS
-from manifest_meta import META, NOT_APPLICABLE_REASON, PENDING_REASON
+from checks_config import CHECKS, METAS
+from manifest_meta import NOT_APPLICABLE_REASON, PENDING_REASON
 
 props = [json.loads(l)["id"] for l in open(os.path.join(VERIF, "properties.jsonl"))]
 hooks = subprocess.run(["git", "-C", "/repo", "log", "--format=%H %s", "--grep=^verif hook"],
@@ -30,12 +30,10 @@ m = {
     "notes": "See DESIGN.md. All checks enumerate a stated finite space of executions of the real code exhaustively.",
     "not_applicable": [],
 }
-for e in META.get("engines", []):
-    m["engines"].append(e)
 for pid in props:
-    if pid in CHECKS and pid in META["checks"]:
+    if pid in CHECKS:
         c = CHECKS[pid]
-        mm = META["checks"][pid]
+        mm = METAS[pid]
         entry = {
             "property_id": pid,
             "quick_cmd": f"./check {pid} quick",
